@@ -22,7 +22,7 @@ RULE = ("programs of 1-6 Echo commands (string, number, boolean, path, data type
         "non-ASCII, leading/trailing blanks, empty, control characters) and numbers (huge ints, exponent-form floats, -0.0), built from "
         "source and through add_command (names and Command objects as references); plus random EEMS models from source and API; "
         "distinct by (builder, parameter kinds used, string/number feature classes)")
-REQUIRED_COUNTERS = ["round_trips", "values_compared", "result_pairs_compared", "fixpoints_checked"]
+REQUIRED_COUNTERS = ["round_trips", "values_compared", "result_pairs_compared", "fixpoints_checked", "to_file_checks"]
 ASSUMPTIONS = ["layout of the text and key order of metadata are not judged", "NaN/inf and type objects as argument values are never generated",
                "result names are identifiers"]
 
@@ -253,6 +253,25 @@ def run_case(ctx, case):
     except Exception as e:
         ctx.fail("%s:to_string-raises-%s" % (builder, type(e).__name__), {"error": repr(e)[:300]})
         return
+    # to_file: by path and by file object, the file must hold exactly the serialised text (read back as UTF-8)
+    if case["rseed"] % 4 == 0:
+        ctx.count("to_file_checks")
+        import io
+        fp = os.path.join(d, "saved_%d.mpt" % (case["rseed"] % 1000))
+        try:
+            P.to_file(fp)
+            with open(fp, encoding="utf-8") as fh:
+                on_disk = fh.read()
+            buf = io.StringIO()
+            P.to_file(buf)
+            if on_disk != text or buf.getvalue() != text:
+                ctx.fail("%s:to_file-differs-from-to_string" % builder, {"to_string": text[:300], "file": on_disk[:300], "file_object": buf.getvalue()[:300]})
+                return
+        except UnicodeError as e:
+            ctx.dontcare("to_file under a non-UTF-8 locale: %s" % type(e).__name__)
+        except Exception as e:
+            ctx.fail("%s:to_file-raises-%s" % (builder, type(e).__name__), {"error": repr(e)[:300]})
+            return
     try:
         Q = Program.from_source(text, libraries=libs, working_dir=d)
         sq = structure(Q)
